@@ -18,7 +18,9 @@
 //! `lopdf-encrypted-opens-in-reference`, `id-not-encrypted`, `no-panic`.  The obligations about opening, object keys, crypt
 //! filter entries and object streams get an input-class suffix for the variants that are a class of their own: `-identity`
 //! (StmF or StrF is the predefined /Identity filter), `-length-absent` / `-length-256` (top-level /Length toggled),
-//! `-direct-dict` (/Encrypt is a direct dictionary), `-identity-in-cf`; O-value, U-value, P-word, perms, dict-V-R-Length,
+//! `-direct-dict` (/Encrypt is a direct dictionary), `-identity-in-cf`, and `-cf` followed by what the crypt filter dictionaries of the
+//! file leave out or write differently (`-cf-notype`, `-cf-noauthevent`, `-cf-nolength`, `-cf-lengthbits` and their combinations, see
+//! `CfShape`); O-value, U-value, P-word, perms, dict-V-R-Length,
 //! id-not-encrypted and (direction B) file-key never carry a suffix.  Detail texts start with a constant phrase of more than
 //! 48 characters, because Report::fail groups failures by that prefix.
 //!
@@ -700,6 +702,49 @@ impl Rng {
 // 3. the case space
 // ===============================================================================================================
 
+/// How a producer writes a crypt filter dictionary (ISO 32000-1 / -2 table 25).  Only CFM carries information the standard security
+/// handler needs; Type ("(Optional) If present, shall be CryptFilter"), AuthEvent ("(Optional) ... Default value: DocOpen") and Length
+/// ("(Optional)"; the table says bits, the standard security handler of Acrobat writes bytes, both occur) may or may not be there.
+/// None of them enters any key or ciphertext, so every shape is the SAME encrypted document as far as Algorithms 1-13 go.
+#[derive(Clone, Copy, Debug, PartialEq)]
+struct CfShape { ty: bool, auth_event: bool, length: CfLength }
+#[derive(Clone, Copy, Debug, PartialEq)]
+enum CfLength { Bytes, Bits, Absent }
+impl CfShape {
+    /// what the module has always written: all three entries, Length in bytes
+    const BASE: CfShape = CfShape { ty: true, auth_event: true, length: CfLength::Bytes };
+    /// all 2 x 2 x 3 shapes, BASE first
+    fn all() -> Vec<CfShape> {
+        let mut v = vec![];
+        for ty in [true, false] { for auth_event in [true, false] { for length in [CfLength::Bytes, CfLength::Bits, CfLength::Absent] { v.push(CfShape { ty, auth_event, length }); } } }
+        assert!(v[0] == CfShape::BASE && v.len() == 12);
+        v
+    }
+    fn is_base(&self) -> bool { *self == CfShape::BASE }
+    /// "base", or the deviations from BASE joined by '-': notype, noauthevent, nolength | lengthbits
+    fn s(&self) -> String {
+        let mut p: Vec<&str> = vec![];
+        if !self.ty { p.push("notype"); }
+        if !self.auth_event { p.push("noauthevent"); }
+        match self.length { CfLength::Bytes => {}, CfLength::Bits => p.push("lengthbits"), CfLength::Absent => p.push("nolength") }
+        if p.is_empty() { "base".into() } else { p.join("-") }
+    }
+    fn parse(s: &str) -> CfShape {
+        let has = |w: &str| s.split('-').any(|x| x == w);
+        CfShape { ty: !has("notype"), auth_event: !has("noauthevent"), length: if has("nolength") { CfLength::Absent } else if has("lengthbits") { CfLength::Bits } else { CfLength::Bytes } }
+    }
+    /// the crypt filter dictionary for cipher `x` in this shape
+    fn dict(&self, x: Ciph) -> Dictionary {
+        let mut e: Vec<(&[u8], Object)> = vec![];
+        if self.ty { e.push((b"Type", nm(b"CryptFilter"))); }
+        e.push((b"CFM", nm(cfm_name(x))));
+        if self.auth_event { e.push((b"AuthEvent", nm(b"DocOpen"))); }
+        let bytes: i64 = if x == Ciph::AesV3 { 32 } else { 16 };
+        match self.length { CfLength::Bytes => e.push((b"Length", Object::Integer(bytes))), CfLength::Bits => e.push((b"Length", Object::Integer(bytes * 8))), CfLength::Absent => {} }
+        dct(e)
+    }
+}
+
 #[derive(Clone, Copy, Debug, PartialEq)]
 enum Variant { Base, LengthToggled, DirectDict, IdentityInCf }
 impl Variant {
@@ -721,25 +766,26 @@ struct Case {
     seed: u64,
     layout: u8,       // 0: cross-reference table; 1: cross-reference stream (A: plus two objects in an object stream)
     variant: Variant,
+    cf: CfShape,      // direction A, R >= 4: which optional entries the crypt filter dictionaries carry
 }
 
 impl Case {
     fn to_json(&self, obligation: &str) -> Value {
         json!({"obligation": obligation, "dir": self.dir.to_string(), "r": self.r, "bits": self.bits, "stm": self.stm.s(), "str": self.strf.s(), "em": self.em, "perm": self.perm,
-               "user": self.user, "owner": self.owner, "seed": self.seed, "layout": self.layout, "variant": self.variant.s()})
+               "user": self.user, "owner": self.owner, "seed": self.seed, "layout": self.layout, "variant": self.variant.s(), "cf": self.cf.s()})
     }
     fn from_json(v: &Value) -> Case {
         Case { dir: v["dir"].as_str().unwrap_or("A").chars().next().unwrap_or('A'), r: v["r"].as_u64().unwrap_or(2) as u8, bits: v["bits"].as_u64().unwrap_or(40) as usize,
                stm: Ciph::parse(v["stm"].as_str().unwrap_or("RC4")), strf: Ciph::parse(v["str"].as_str().unwrap_or("RC4")), em: v["em"].as_bool().unwrap_or(true),
                perm: v["perm"].as_u64().unwrap_or(0) as u32, user: v["user"].as_str().unwrap_or("").into(), owner: v["owner"].as_str().unwrap_or("").into(),
-               seed: v["seed"].as_u64().unwrap_or(0), layout: v["layout"].as_u64().unwrap_or(0) as u8, variant: Variant::parse(v["variant"].as_str().unwrap_or("base")) }
+               seed: v["seed"].as_u64().unwrap_or(0), layout: v["layout"].as_u64().unwrap_or(0) as u8, variant: Variant::parse(v["variant"].as_str().unwrap_or("base")), cf: CfShape::parse(v["cf"].as_str().unwrap_or("base")) }
     }
     fn v(&self) -> i64 { match self.r { 2 => 1, 3 => 2, 4 => 4, _ => 5 } }
     fn n(&self) -> usize { self.bits / 8 }
     fn p(&self) -> i32 { conforming_p(self.perm) }
     fn describe(&self) -> String {
-        format!("{} R{} {} bits StmF={} StrF={} em={} P={} user={:?} owner={:?} seed={} layout={} {}", self.dir, self.r, self.bits, self.stm.s(), self.strf.s(), self.em, self.p(),
-                short(&self.user), short(&self.owner), self.seed, if self.layout == 0 { "table" } else { "xref-stream" }, self.variant.s())
+        format!("{} R{} {} bits StmF={} StrF={} em={} P={} user={:?} owner={:?} seed={} layout={} {}{}", self.dir, self.r, self.bits, self.stm.s(), self.strf.s(), self.em, self.p(),
+                short(&self.user), short(&self.owner), self.seed, if self.layout == 0 { "table" } else { "xref-stream" }, self.variant.s(), if self.cf.is_base() { String::new() } else { format!(" cf={}", self.cf.s()) })
     }
     /// input-class suffix of the obligation names
     fn suffix(&self) -> String {
@@ -750,6 +796,7 @@ impl Case {
             Variant::DirectDict => s.push_str("-direct-dict"),
             _ => {}
         }
+        if !self.cf.is_base() { s.push_str("-cf-"); s.push_str(&self.cf.s()); }
         s
     }
     /// whether the encryption dictionary carries a top-level /Length (direction A)
@@ -814,7 +861,7 @@ fn handlers(thorough: bool) -> Vec<Handler> {
 fn cases(thorough: bool) -> Vec<Case> {
     let mut out = vec![];
     let mk = |dir: char, h: &Handler, perm: u32, u: &str, o: &str, seed: u64, layout: u8, variant: Variant| Case {
-        dir, r: h.r, bits: h.bits, stm: h.stm, strf: h.strf, em: h.em, perm, user: u.into(), owner: o.into(), seed, layout, variant };
+        dir, r: h.r, bits: h.bits, stm: h.stm, strf: h.strf, em: h.em, perm, user: u.into(), owner: o.into(), seed, layout, variant, cf: CfShape::BASE };
     let three: [(&str, &str); 3] = [("user", "Owner-Pass"), ("", "Owner-Pass"), ("user", "")];
     let seeds: &[u64] = if thorough { &[0, 1, 2, 3] } else { &[0, 1] };
     for h in handlers(thorough) {
@@ -841,11 +888,19 @@ fn cases(thorough: bool) -> Vec<Case> {
             if direct { out.push(mk('A', &h, PERM_SETS[0], u, o, seed, 0, Variant::DirectDict)); }
             if id_in_cf { out.push(mk('B', &h, PERM_SETS[0], u, o, seed, 0, Variant::IdentityInCf)); }
         } }
+        // crypt filter dictionary shapes: every handler that has a crypt filter dictionary to write, every shape other than the base one
+        // (which all cases above use), three password pairs, both layouts
+        let has_cf = h.r >= 4 && (h.stm != Ciph::Identity || h.strf != Ciph::Identity);
+        if has_cf {
+            for shape in CfShape::all().into_iter().skip(1) { for (u, o) in three { for &seed in seeds { for layout in [0u8, 1] {
+                out.push(Case { cf: shape, ..mk('A', &h, PERM_SETS[0], u, o, seed, layout, Variant::Base) });
+            } } } }
+        }
     }
     out
 }
 
-const BOUND: &str = "cases = (direction, handler, permission word, (user, owner) password pair, seed, file layout, variant); every listed set is enumerated completely (no sampling). \
+const BOUND: &str = "cases = (direction, handler, permission word, (user, owner) password pair, seed, file layout, variant, crypt filter dictionary shape); every listed set is enumerated completely (no sampling). \
 DIRECTIONS: A = the reference handler of this module (own MD5/SHA-2/AES/RC4, own PDF writer) encrypts, lopdf load_mem + authenticate_user_password / authenticate_owner_password / decrypt opens; \
 B = lopdf EncryptionState::try_from + Document::encrypt + save_to produces, the reference reads the encryption dictionary, authenticates and decrypts. \
 HANDLERS: R2 (V1, RC4 40); R3 (V2, RC4) with key length 40,48,..,128 (quick tier: 40,56,64,128); R4 (V4, 128 bit) with StmF x StrF over {RC4 (/V2), AESV2, the predefined /Identity} x EncryptMetadata {true,false}; \
@@ -862,9 +917,12 @@ DOCUMENT (fixed): strings of 0,1,5,15,16,17,20,32,33 bytes (literal and hexadeci
 FULL PRODUCT in both directions: handlers x permissions x pairs x seeds x layouts. \
 VARIANTS (permission word -4, pairs {(user,Owner-Pass),('',Owner-Pass),(user,'')}, 2 seeds, table): A with the top-level /Length toggled (R3/40 and R4: absent; R5/R6: /Length 256 present; base is /Length present for R3/R4, absent for R2/R5/R6), \
 A with /Encrypt as a direct dictionary in the trailer (one handler per revision), B with Identity requested through a CF entry holding lopdf's IdentityCryptFilter (R4 handlers that use Identity; base requests the name /Identity without CF entry). \
+CRYPT FILTER DICTIONARY SHAPES (direction A, every R4/R5/R6 handler with at least one non-Identity filter, i.e. 16 R4 handlers and the 4 R5/R6 handlers): the entries of ISO 32000 table 25 that a producer is free to write or not, \
+/Type /CryptFilter {present, absent} x /AuthEvent /DocOpen {present, absent (DocOpen is the default)} x /Length {in bytes (16 / 32), in bits (128 / 256), absent} = 12 shapes of every dictionary in CF; /CFM is always present; \
+all cases above use the shape (Type, AuthEvent, Length in bytes); the other 11 shapes are each run with permission word -4, the pairs {(user,Owner-Pass),('',Owner-Pass),(user,'')}, every seed of the tier (2 / 4) and both layouts, with the same checks as any A case (same keys, same ciphertext: the shape enters no algorithm). \
 EACH A CASE: user password, owner password (effective: the user password if there is none), a wrong password, the user password with one character appended (if shorter than the significant length) and (if neither password is empty) the empty password; lopdf's file key is compared with the reference's. \
 EACH B CASE: V, R, Length, P, CF/StmF/StrF/CFM/AuthEvent, EncryptMetadata, O and U recomputed (R2-4) or validated with UE/OE/Perms (R5/6), file key, every string and stream decrypted by the reference, /ID untouched. \
-NOT COVERED: passwords that SASLprep changes; non-conforming P words; R4 crypt filters with keys shorter than 128 bits; V5 with Identity or mixed filters; public-key handlers; /EFF; array-form DecodeParms of /Crypt; \
+NOT COVERED: crypt filter names other than StdCF / RC4CF; CF entries that StmF and StrF do not name; a CF entry without /CFM or with /CFM /None (direction A); /AuthEvent /EFOpen; passwords that SASLprep changes; non-conforming P words; R4 crypt filters with keys shorter than 128 bits; V5 with Identity or mixed filters; public-key handlers; /EFF; array-form DecodeParms of /Crypt; \
 object streams in direction B (lopdf's writer produces none)";
 
 // ===============================================================================================================
@@ -1082,7 +1140,8 @@ fn ref_encryption(c: &Case, upw: &[u8], opw: &[u8], id0: &[u8], rng: &mut Rng) -
         for x in [c.stm, c.strf] {
             if x == Ciph::Identity || named.contains_key(cf_name(x)) { continue; }
             // the standard security handler gives the crypt filter's Length in bytes (ISO 32000-2 table 25)
-            cf.set(cf_name(x).to_vec(), Object::Dictionary(dct(vec![(b"Type", nm(b"CryptFilter")), (b"CFM", nm(cfm_name(x))), (b"AuthEvent", nm(b"DocOpen")), (b"Length", Object::Integer(if x == Ciph::AesV3 { 32 } else { 16 }))])));
+            // (base shape; the other shapes leave out optional entries or give the Length in bits, see CfShape)
+            cf.set(cf_name(x).to_vec(), Object::Dictionary(c.cf.dict(x)));
             named.insert(cf_name(x).to_vec(), x);
         }
         d.set("CF", Object::Dictionary(cf));
@@ -1108,6 +1167,31 @@ fn diagnose_a(doc: &Document, pw_bytes: &[u8], fkey: &[u8], r: u8) -> String {
     }
 }
 
+/// how lopdf reads the CF dictionary the reference wrote, as far as the public API shows it (diagnosis text only, never the oracle):
+/// a probe document that holds nothing but the encryption dictionary is asked for its crypt filters
+fn diagnose_cf(c: &Case, re: &RefEnc) -> String {
+    if c.r < 4 || re.named.is_empty() { return String::new(); }
+    let mut probe = Document::with_version("1.7");
+    probe.objects.insert(ENC_ID, Object::Dictionary(re.dict.clone()));
+    probe.trailer.set("Encrypt", Object::Reference(ENC_ID));
+    let mut out = String::from("; crypt filters of this file:");
+    for (name, x) in &re.named {
+        let mut text = vec![];
+        ser_dict(&c.cf.dict(*x), &mut text);
+        out.push_str(&format!(" /{} {}", String::from_utf8_lossy(name), String::from_utf8_lossy(&text)));
+    }
+    if !c.cf.is_base() { out.push_str(" (ISO 32000 table 25: Type, AuthEvent [default DocOpen] and Length are optional in a crypt filter dictionary, only CFM selects the method)"); }
+    match lib(|| probe.get_crypt_filters()) {
+        Err(p) => out.push_str(&format!("; Document::get_crypt_filters panicked: {}", p)),
+        Ok(m) => {
+            let missing: Vec<String> = re.named.keys().filter(|k| !m.contains_key(*k)).map(|k| format!("/{}", String::from_utf8_lossy(k))).collect();
+            if missing.is_empty() { out.push_str("; Document::get_crypt_filters() has an entry for each of them"); }
+            else { out.push_str(&format!("; Document::get_crypt_filters() has NO entry for {} although CF defines it and StmF/StrF name it, so lopdf does not apply the method /CFM names to that data", missing.join(", "))); }
+        }
+    }
+    out
+}
+
 fn run_a(c: &Case) -> Fails {
     let mut f: Fails = vec![];
     let sfx = c.suffix();
@@ -1122,6 +1206,8 @@ fn run_a(c: &Case) -> Fails {
     let rc = RefCrypt { fkey: &re.fkey, stm: c.stm, strf: c.strf, em: c.em, named: &re.named };
     let plain = plain_objects(c.r);
     let comp = if c.layout == 1 { compressed_objects() } else { vec![] };
+    let cf_cell: std::cell::OnceCell<String> = std::cell::OnceCell::new();   // computed only when some data does not come back
+    let cf_note = || -> String { cf_cell.get_or_init(|| diagnose_cf(c, &re)).clone() };
     let mut objects: Vec<((u32, u16), Object)> = plain.iter().map(|(id, o)| (*id, rc.encrypt(*id, o, &mut rng))).collect();
     let mut compressed: Vec<(u32, u32, u16)> = vec![];
     if !comp.is_empty() {
@@ -1175,13 +1261,13 @@ fn run_a(c: &Case) -> Fails {
                         else { extra = format!("; file key and object key ({}) agree: the deviation is in the {} data stage (IV / padding / cipher)", hex(&k), cipher.s()); }
                     }
                 }
-                push(f, &ob(name), format!("lopdf does not return the plaintext of the reference-encrypted document ({}): {}{}", how, df, extra));
+                push(f, &ob(name), format!("lopdf does not return the plaintext of the reference-encrypted document ({}): {}{}{}", how, df, extra, cf_note()));
                 break;
             }
         }
         for (id, o) in &comp {
             let df = match d.objects.get(&(*id, 0)) { None => Some(format!("object {} 0 (kept in object stream {}) is missing", id, OBJSTM_ID.0)), Some(g) => diff_obj(o, g, &format!("{} 0", id)) };
-            if let Some(df) = df { push(f, &ob("objstm-strings"), format!("objects kept in the encrypted object stream are not recovered by lopdf ({}): {}", how, df)); break; }
+            if let Some(df) = df { push(f, &ob("objstm-strings"), format!("objects kept in the encrypted object stream are not recovered by lopdf ({}): {}{}", how, df, cf_note())); break; }
         }
     };
 
